@@ -93,14 +93,15 @@ def build_prdata(sc, repo=REPO, data_root=None, bname='b'):
         raise BuildError('prdata failed (exit %d): %s %s' % (p.returncode, p.stdout[-2000:], p.stderr[-2000:]))
     return out
 
-def build_lib(sc, repo=REPO, san='address,undefined', opt='-O1', extra=(), tag='san', cc='clang-14'):
-    """compile libxrl sources (+ generated tables) into objects; returns list of objects and flags."""
+def build_lib(sc, repo=REPO, san='address,undefined', opt='-O1', extra=(), tag='san', cc='clang-14', srcs=None):
+    """compile libxrl sources (+ generated tables) into objects; returns list of objects and flags.
+    `srcs`: C files of src/ to compile instead of LIBXRL (C20 passes the list it reads from src/meson.build)"""
     bdir = sc.path('b')
     inline = os.path.join(bdir, 'xrayglob_inline.c')
     if not os.path.exists(inline): build_prdata(sc, repo)
     fl = cflags(repo, bdir) + [opt, '-g', '-w', '-fno-omit-frame-pointer'] + list(extra)
     if san: fl += ['-fsanitize=' + san, '-fno-sanitize-recover=all']
-    srcs = [os.path.join(repo, 'src', s) for s in LIBXRL]
+    srcs = [os.path.join(repo, 'src', s) for s in (LIBXRL if srcs is None else srcs)]
     objs = compile_many(cc, fl, srcs, sc.path('o_' + tag))
     # the 19 MB table file: no sanitizer instrumentation needed for constant data, but keep ASan redzones on globals
     tfl = cflags(repo, bdir) + ['-O0', '-g0', '-w']
